@@ -9,6 +9,7 @@ import (
 	"time"
 
 	"github.com/zitadel/saml/pkg/provider"
+	"github.com/zitadel/saml/pkg/provider/key"
 	samlxml "github.com/zitadel/saml/pkg/provider/xml"
 
 	"verif/harness/core"
@@ -353,6 +354,35 @@ func c11Case(r *core.Run, idx int, rng *rand.Rand) {
 		} else {
 			r.Count("issuer_checked_query", 1)
 		}
+		// --- key rotation: what is published must follow the key storage hands out NOW ---
+		if hi == len(hosts)-1 {
+			oldKey := e.W.RespKey
+			e.W.RespKey = &key.CertificateAndKey{Certificate: keys.Get("sp3").CertDER, Key: keys.Get("sp3").RSA}
+			mv2 := fetchMeta(e, eps["meta"].route("metadata"), reqHost, hdr)
+			pc2, _ := fetchCertPEM(e, eps["cert"].route("certificate"), reqHost, hdr)
+			sc2 := randScenario(rng, fmt.Sprintf("MK%dr%dx", idx, hi), false)
+			sc2.Host = ""
+			sc2.S.Binding = spsim.BindPost
+			sc2.install(e.W)
+			cc2 := e.Do(env.Req{Path: eps["cb"].route("login"), Query: "id=" + url.QueryEscape(sc2.S.ID), Host: reqHost, Headers: hdr})
+			r.Count("key_rotations", 1)
+			switch {
+			case mv2.Err != "" || mv2.Cert == nil || pc2 == nil:
+				viol(mv2.Call, "after_key_rotation", "metadata or certificate endpoint unavailable after the response signing key changed: "+mv2.Err)
+			case !bytes.Equal(mv2.Cert.Raw, keys.Get("sp3").CertDER):
+				viol(mv2.Call, "after_key_rotation", "metadata still publishes the previous signing certificate after the response signing key changed")
+			case !bytes.Equal(pc2.Raw, mv2.Cert.Raw):
+				viol(mv2.Call, "after_key_rotation", "certificate endpoint and metadata KeyDescriptor differ after the response signing key changed")
+			case !cc2.D.Success():
+				viol(cc2, "after_key_rotation", "no Success assertion after the response signing key changed")
+			default:
+				fails, _, _ := verifyEmitted(cc2.D, mv2.Cert)
+				for _, f := range fails {
+					viol(cc2, "after_key_rotation/"+f.Clause, "assertion issued after the key change does not verify under the published certificate: "+f.Reason)
+				}
+			}
+			e.W.RespKey = oldKey
+		}
 		if idx < 3 && hi == 0 {
 			r.Sample("configuration", map[string]any{"class": class, "host": h, "entityID": mv.EntityID, "sso": ssoLoc, "slo": sloLoc, "attr": attrLoc, "want_advertised": mv.WantSigned})
 		}
@@ -367,7 +397,7 @@ func init() {
 		TimeoutQuick: 5 * time.Minute, TimeoutThorough: 30 * time.Minute,
 		Build: func(c *Ctx) []core.Workload {
 			r := c.Run
-			r.Rule = "random provider configurations (static issuer with / without path / trailing slash, host-, path- and Forwarded-derived issuers with several hosts; each endpoint default / custom path with or without leading slash / external URL; metadata endpoint; WantAuthRequestsSigned in {'',false,0,true,1,TRUE,yes}; encryption algorithm, organisation, contact, validity / caching, metadata signing, time layout). Per configuration and host the metadata is fetched, parsed (expat, library decoder), and compared with behaviour: entityID vs Issuer of SSO error replies, callback assertions, LogoutResponses and attribute-query responses; advertised locations vs routes via positive probes (a conformant request to the route must be handled by the right handler); KeyDescriptor = certificate endpoint = key verifying a fresh assertion; WantAuthnRequestsSigned advertised true <=> unsigned requests refused on both bindings. Distinct = configuration class."
+			r.Rule = "random provider configurations (static issuer with / without path / trailing slash, host-, path- and Forwarded-derived issuers with several hosts; each endpoint default / custom path with or without leading slash / external URL; metadata endpoint; WantAuthRequestsSigned in {'',false,0,true,1,TRUE,yes}; encryption algorithm, organisation, contact, validity / caching, metadata signing, time layout). Per configuration and host the metadata is fetched, parsed (expat, library decoder), and compared with behaviour: entityID vs Issuer of SSO error replies, callback assertions, LogoutResponses and attribute-query responses; advertised locations vs routes via positive probes (a conformant request to the route must be handled by the right handler); KeyDescriptor = certificate endpoint = key verifying a fresh assertion; WantAuthnRequestsSigned advertised true <=> unsigned requests refused on both bindings; finally storage switches to another response signing key and metadata, certificate endpoint and a fresh assertion must all follow. Distinct = configuration class."
 			r.Assume("route paths are drawn from URL-safe characters and are pairwise distinct; external URLs are only compared textually")
 			r.Require("metadata_documents", int64(c.Pick(200, 3000)))
 			r.Require("sso_probe_accepted", 100)
@@ -375,6 +405,7 @@ func init() {
 			r.Require("issuer_checked_logout", 100)
 			r.Require("issuer_checked_query", 100)
 			r.Require("want_signed_probes", 200)
+			r.Require("key_rotations", 100)
 			return []core.Workload{{Name: "configurations", N: c.Pick(200, 2500), Fn: c11Case}}
 		},
 		After: func(c *Ctx) { verify.Py.Close() },
